@@ -1,10 +1,14 @@
 // Translation validation of ONE natively generated LR(1) parser (C13 tables obligation, C12 pattern obligations).
 //
 // The table generator (hull/jump/elements/generateParseTables) ran natively on the instance (native/lr_dump.cpp); the tables it produced are
-// in the generated header LR_DATA as constant data and are written into the private `action` / `jump` members of a real LRParser<int,int>.
-// The REAL driver LRParser<int,int>::parse (Compiler/include/ParserGenerator/lrparser.hpp) then runs symbolically on ALL end-marked inputs up to
-// LR_N tokens, next to a derivation-table oracle of the grammar (CYK-style chart D[X][i][j] = "X derives w[i..j)" with saturating derivation
-// COUNTS {0,1,>=2} and the folded VALUE of the derivation), which is plain code over the symbolic input.
+// in the generated header LR_DATA as constant data.  The REAL driver LRParser<int,int>::parse (Compiler/include/ParserGenerator/lrparser.hpp) runs
+// symbolically on ALL end-marked inputs up to LR_N tokens, next to a derivation-table oracle of the grammar (CYK-style chart D[X][i][j] =
+// "X derives w[i..j)" with saturating derivation COUNTS {0,1,>=2} and the folded VALUE of the derivation), which is plain code over the symbolic input.
+// Table access, two configurations:
+//   LR_PLAIN: the tables are written into the private `action` / `jump` vectors of the parser object and read through the container model
+//             (only tiny instances are tractable: cross-check);
+//   default : the driver's table and stack accessors are redirected to by-value views of the constant tables (see "Table view" below).
+// Entry h_get_errors (LR_GETERRORS): C12, MacroDetector::getErrors on a symbolic generation result.
 //
 // Semantic actions (documented in lib/lrtv.py, identical in native/lr_dump.cpp): leaf value = token + 1; the action of rule r applied to the
 // popped values c1..ck (c1 = value of the LAST right-side symbol) is  v = r+1; v = (v*31 + c1) mod 2^31; ...; v = (v*31 + ck) mod 2^31.
@@ -57,8 +61,9 @@ extern "C" { int CEX_n, CEX_w[LR_N + 1], CEX_accept, CEX_value, CEX_in_lang, CEX
 // grammar of the instance: G_LHS[r], G_LEN[r], G_SYM[r][k] (>= 0: terminal, < 0: nonterminal -(X+1)), G_RID[r] (rule id used by the action);
 // pruning constants computed from the grammar by lib/lrtv.py: G_SUFMIN[r][k] = minimal yield length of symbols k.. of rule r,
 // G_SYMMIN/G_SYMMAX[r][k] = minimal / maximal (capped at LR_N+1) yield length of symbol k.  LR_ROUNDS: rounds of the same-span fixpoint
-// (unit rules and epsilon siblings make D[X][i][j] depend on D[Y][i][j]; 2*#nonterminals+1 rounds give the exact saturated counts, 1 round
-// if lrtv.py found the same-span dependency graph acyclic and ordered the rules topologically).
+// (unit rules and epsilon siblings make D[X][i][j] depend on D[Y][i][j]; 2*#nonterminals+2 rounds give the exact saturated counts - a second
+// derivation, if there is one, exists with same-span nesting depth <= 2*#nonterminals+1 - and 1 round suffices if lrtv.py found the same-span
+// dependency graph acyclic and ordered the nonterminals topologically, G_ORDER).
 static int W[LR_N + 1];
 static unsigned char CNT[LR_NNT][LR_N + 1][LR_N + 1];
 #if LR_VALUES
